@@ -317,7 +317,12 @@ fn op_json(o: &ClientOp) -> Value {
 pub const KEYSPACES: [&str; 2] = ["ks-a", "ks-b"];
 
 async fn run_op(h: ReplicatedStoreHandle<Store>, op: ClientOp) -> Result<(), String> {
+    // operations on odd ids go through the keyspace-bound handle (`with_keyspace`), the others through the store handle
     let r = match op {
+        ClientOp::Put { ks, id, val, level, .. } if id % 2 == 1 => h.with_keyspace(KEYSPACES[ks]).put(id, val, level).await,
+        ClientOp::Del { ks, id, level, .. } if id % 2 == 1 => h.with_keyspace(KEYSPACES[ks]).del(id, level).await,
+        ClientOp::PutMany { ks, docs, level, .. } if docs.first().map(|d| d.0 % 2 == 1).unwrap_or(false) => h.with_keyspace(KEYSPACES[ks]).put_many(docs, level).await,
+        ClientOp::DelMany { ks, ids, level, .. } if ids.first().map(|d| d % 2 == 1).unwrap_or(false) => h.with_keyspace(KEYSPACES[ks]).del_many(ids, level).await,
         ClientOp::Put { ks, id, val, level, .. } => h.put(KEYSPACES[ks], id, val, level).await,
         ClientOp::Del { ks, id, level, .. } => h.del(KEYSPACES[ks], id, level).await,
         ClientOp::PutMany { ks, docs, level, .. } => h.put_many(KEYSPACES[ks], docs, level).await,
@@ -618,8 +623,10 @@ pub async fn convergence_scenario(seed: u64, scen: u64, cfg: &ScenarioCfg, tag: 
             let meta: Vec<_> = h.iter_metadata(ks).await.map(|m| m.collect::<Vec<_>>()).unwrap_or_default();
             let live_ids: BTreeSet<Key> = meta.iter().filter(|m| !m.2).map(|m| m.0).collect();
             let many: Vec<_> = h.get_many(ks, 0..cfg.n_ids).await.map(|d| d.collect::<Vec<_>>()).unwrap_or_default();
+            let kh = h.with_keyspace(ks.to_string());
             for id in 0..cfg.n_ids {
-                if let Ok(Some(d)) = h.get(ks, id).await {
+                let r = if id % 2 == 1 { kh.get(id).await } else { h.get(ks, id).await };
+                if let Ok(Some(d)) = r {
                     got.insert((ks.to_string(), id), (d.last_updated(), d.data().to_vec()));
                 }
             }
@@ -1161,11 +1168,17 @@ async fn c06_layout(seed: u64, scen: u64, layout: Vec<usize>, exhaustive_subsets
                         out.count("identical_calls_repeated", 1);
                     }
                     let before_log = cluster.nodes[me].ctl.log.lock().len();
-                    let result = match kind {
-                        0 => h.put(ks, key, vec![me as u8, ai as u8], level).await,
-                        1 => h.del(ks, key, level).await,
-                        2 => h.put_many(ks, keys.iter().map(|k| (*k, vec![1u8, 2, 3])).collect::<Vec<_>>(), level).await,
-                        _ => h.del_many(ks, keys.clone(), level).await,
+                    // (every other call goes through the keyspace-bound handle)
+                    let kh = h.with_keyspace(ks);
+                    let result = match (kind, key % 2 == 1) {
+                        (0, false) => h.put(ks, key, vec![me as u8, ai as u8], level).await,
+                        (1, false) => h.del(ks, key, level).await,
+                        (2, false) => h.put_many(ks, keys.iter().map(|k| (*k, vec![1u8, 2, 3])).collect::<Vec<_>>(), level).await,
+                        (_, false) => h.del_many(ks, keys.clone(), level).await,
+                        (0, true) => kh.put(key, vec![me as u8, ai as u8], level).await,
+                        (1, true) => kh.del(key, level).await,
+                        (2, true) => kh.put_many(keys.iter().map(|k| (*k, vec![1u8, 2, 3])).collect::<Vec<_>>(), level).await,
+                        (_, true) => kh.del_many(keys.clone(), level).await,
                     };
                     // the stamp the issuer assigned = stamp of its local write
                     let stamp = cluster.nodes[me].ctl.log.lock().iter().skip(before_log).find(|w| w.id == key).map(|w| w.ts);
